@@ -366,7 +366,7 @@ class Item:
         self.log.append({"kind": "signature", "from": " ".join(exp), "to": " ".join(texts(new)),
                          "why": why})
 
-    def lift_block(self, anchor_src, nth, new_sig_src, why=""):
+    def lift_block(self, anchor_src, nth, new_sig_src, why="", pre="", post=""):
         """The item becomes a new function whose body is, verbatim, the brace block that directly follows
         the nth occurrence of `anchor` inside the located function (a closure body, a loop body, an inner
         block).  Dropped: everything of the enclosing function outside that block; the variables the block
@@ -390,13 +390,21 @@ class Item:
         self.line = block[0].line
         self.end_line = block[-1].line
         block[0].ws = " "
+        if pre or post:
+            # the lifted group is not a statement block by itself (e.g. the arms of a `match x`): the declared
+            # `pre` text is put in front of it and `post` behind it, inside a fresh function body
+            w1 = tokenize("{ " + pre)
+            w2 = tokenize(post + " }")
+            for t in w1 + w2:
+                t.line = line
+            block = w1 + block + w2
         self.toks = sig + block
         self.original = render(block).strip()
         self.log.append({"kind": "lift-block", "anchor": " ".join(pat), "nth": nth,
-                         "signature": " ".join(texts(sig)), "why": why,
+                         "signature": " ".join(texts(sig)), "why": why, "pre": pre, "post": post,
                          "drops": "the rest of the enclosing function; captured variables become parameters"})
 
-    def abstract_span(self, anchor_src, nth, tail_src, rep_src, why=""):
+    def abstract_span(self, anchor_src, nth, tail_src, rep_src, why="", groups=1):
         """Replace `anchor` + the bracket group that directly follows it + the literal `tail` tokens by the
         replacement (a call to a declared stand-in).  Unlike `replace`, the content of the group is not
         spelled out in the spec, so edits inside it do not lose the anchor -- and are not checked by this
@@ -411,6 +419,10 @@ class Item:
         if b >= len(self.toks) or self.toks[b].s not in ("(", "{", "["):
             raise LostAnchor("abstract-span: anchor `%s` in %s is not followed by a bracket group" % (" ".join(pat), self.path))
         c = match_close(self.toks, b)
+        for _g in range(groups - 1):
+            if c + 1 >= len(self.toks) or self.toks[c + 1].s not in ("(", "{", "["):
+                raise LostAnchor("abstract-span: expected %d bracket groups after `%s` in %s" % (groups, " ".join(pat), self.path))
+            c = match_close(self.toks, c + 1)
         tail = texts(tokenize(tail_src)) if tail_src else []
         if texts(self.toks[c + 1:c + 1 + len(tail)]) != tail:
             raise LostAnchor("abstract-span: group after `%s` in %s is not followed by `%s`"
@@ -427,6 +439,19 @@ class Item:
         self.log.append({"kind": "abstract-span", "anchor": " ".join(pat), "nth": nth, "tail": " ".join(tail),
                          "replace": " ".join(texts(rep)), "why": why,
                          "drops": "%d characters of code inside the group are not checked by this unit" % len(inner)})
+
+    def rename_ident(self, old, new, why=""):
+        """alpha-renaming of one identifier in the body (e.g. `self` -> `this` when a by-value `mut self`
+        receiver is turned into an ordinary `mut` parameter by the signature edit)."""
+        o = self.body_open()
+        n = 0
+        for t in self.toks[o:]:
+            if t.s == old and t.line != 0:
+                t.s = new
+                n += 1
+        if n == 0:
+            raise LostAnchor("rename: identifier `%s` does not occur in the body of %s" % (old, self.path))
+        self.log.append({"kind": "rename", "from": old, "to": new, "count": n, "why": why})
 
     def insert_at_signature(self, text):
         o = self.body_open()
